@@ -140,6 +140,7 @@ type sched struct {
 
 	tracing bool
 	trace   []Step
+	probe   func()
 
 	exitCh chan int
 	doneCh chan struct{}
@@ -319,6 +320,9 @@ func (s *sched) point(kind int, obj unsafe.Pointer) {
 		t.wait()
 	}
 	s.record(t)
+	if s.probe != nil {
+		s.probe()
+	}
 }
 
 // exit is called by a thread whose function has returned.
@@ -502,6 +506,18 @@ func Tick() int64 {
 	}
 	cur.clock++
 	return cur.clock
+}
+
+// SetProbe installs a harness callback that runs (in the running thread, without any scheduling
+// point) immediately before every operation of the execution is performed, i.e. between any two
+// visible operations; harnesses use it to sample the state of the object under test at the finest
+// granularity the scheduler has. Not for race builds (the callback reads shared state).
+//
+//go:norace
+func SetProbe(f func()) {
+	if mode == modeOn && cur != nil {
+		cur.probe = f
+	}
 }
 
 // SetResult publishes the harness's per-execution observation object to the controller.
